@@ -772,6 +772,50 @@ fn calibrated_conv() -> Option<LenConv> {
     conv
 }
 
+/// Hidden values whose first block is solved (XOR with the known key
+/// stream) so that the decrypted original length is an exact boundary value.
+pub fn directed_reveal_cases(fr: &mut Rng, count: usize) -> Vec<Case13> {
+    let mut out = Vec::new();
+    for _ in 0..count {
+        let blocks = *fr.pick(&[1usize, 1, 2, 3, 63]);
+        let n = blocks * 16;
+        let sl = fr.urange(0, 20);
+        let rvb = fr.bytes(4);
+        let mut c = Case13 {
+            attr: *fr.pick(&ALL_ATTRS),
+            value: fr.bytes(n),
+            secret: fr.bytes(sl),
+            rv: [rvb[0], rvb[1], rvb[2], rvb[3]],
+        };
+        let want: u16 = *fr.pick(&[
+            0u16,
+            5,
+            6,
+            7,
+            (n - 2) as u16,
+            (n - 1) as u16,
+            n as u16,
+            (n + 1) as u16,
+            (n + 2) as u16,
+            (n + 3) as u16,
+            (n + 4) as u16,
+            (n + 5) as u16,
+            (n + 6) as u16,
+            (n + 7) as u16,
+            (n + 16) as u16,
+            1023,
+            1024,
+            65535,
+        ]);
+        let ks = first_keystream(c.attr, &c.secret, &c.rv);
+        let w = want.to_be_bytes();
+        c.value[0] = w[0] ^ ks[0];
+        c.value[1] = w[1] ^ ks[1];
+        out.push(c);
+    }
+    out
+}
+
 pub struct C13;
 
 impl Scenario for C13 {
@@ -881,36 +925,7 @@ impl Scenario for C13 {
         }
         // directed: solve the first block so that the decrypted length is an
         // exact boundary value
-        for _ in 0..4 {
-            let blocks = *fr.pick(&[1usize, 1, 2, 3, 63]);
-            let n = blocks * 16;
-            let sl = fr.urange(0, 20);
-            let rvb = fr.bytes(4);
-            let mut c = Case13 {
-                attr: *fr.pick(&ALL_ATTRS),
-                value: fr.bytes(n),
-                secret: fr.bytes(sl),
-                rv: [rvb[0], rvb[1], rvb[2], rvb[3]],
-            };
-            let want: u16 = *fr.pick(&[
-                0u16,
-                5,
-                6,
-                7,
-                (n - 2) as u16,
-                (n - 1) as u16,
-                n as u16,
-                (n + 3) as u16,
-                (n + 4) as u16,
-                (n + 5) as u16,
-                1023,
-                1024,
-                65535,
-            ]);
-            let ks = first_keystream(c.attr, &c.secret, &c.rv);
-            let w = want.to_be_bytes();
-            c.value[0] = w[0] ^ ks[0];
-            c.value[1] = w[1] ^ ks[1];
+        for c in directed_reveal_cases(&mut fr, 5) {
             ctx.obs.count("fault:solved-declared-length");
             ctx.obs.distinct(fnv1a(&serde_json::to_vec(&c).unwrap()));
             ctx.check::<C13>(&c);
